@@ -34,6 +34,40 @@ pub use self::input_variant::InputVariant;
 pub use self::outer_from::OuterFrom;
 pub use self::shape::{DataShape, DeriveInputShapeSet};
 
+/// Apply a container's case rule to a field (`field == true`) or variant name.
+///
+/// `ident_case` implements `camelCase` by slicing the name at byte 1, which panics for a name
+/// that starts with a non-ASCII character (or is empty after conversion), so that rule's last
+/// step is done here, on characters.
+pub(crate) fn apply_rename_rule(rule: ident_case::RenameRule, name: String, field: bool) -> String {
+    use ident_case::RenameRule;
+
+    if rule != RenameRule::CamelCase {
+        return if field {
+            rule.apply_to_field(name)
+        } else {
+            rule.apply_to_variant(name)
+        };
+    }
+
+    let pascal = if field {
+        RenameRule::PascalCase.apply_to_field(name)
+    } else {
+        RenameRule::PascalCase.apply_to_variant(name)
+    };
+
+    let mut chars = pascal.chars();
+    match chars.next() {
+        Some(first) => {
+            let mut camel = String::with_capacity(pascal.len());
+            camel.push(first.to_ascii_lowercase());
+            camel.push_str(chars.as_str());
+            camel
+        }
+        None => pascal,
+    }
+}
+
 /// A default/fallback expression encountered in attributes during parsing.
 #[derive(Debug, Clone)]
 pub enum DefaultExpression {
